@@ -63,6 +63,39 @@ Consts(u) == UNION {{ConstContexts(ConstTexts[k])[j] : j \in 1..8} : k \in 1..Le
              \cup UNION {{NumericContexts(ConstTexts[k])[j] : j \in 1..3} : k \in {k \in 1..Len(ConstTexts) : Numeric(k)}}
              \cup {PairProgram(ConstTexts[k], ConstTexts[j]) : k \in 1..Len(ConstTexts), j \in 1..Len(ConstTexts)}
 
+\* ---------------------------------------------------------------- errors
+\* programs with several faults at once, or whose error text renders a container: which fault is reported, and the
+\* text of the report, must not depend on hash-map iteration order (C05: "same result, error, printed output")
+Errors(u) == {
+   Cat(<<"func f(a=x1, b=y1, c=z1) {", NL, "return a", NL, "}", NL, "f()">>),
+   Cat(<<"func f(a=[1], b={}, c=len) {", NL, "return a", NL, "}", NL, "f()">>),
+   "print(u1, u2, u3)",
+   "m := {\"a\": u1, \"b\": u2, \"c\": u3}",
+   "s := {u1, u2, u3}",
+   "l := [u1, u2, u3]",
+   Cat(<<"x := 1", NL, "y := 2", NL, "func g() {", NL, "y := u1", NL, "x := u2", NL, "}">>),
+   Cat(<<"m := {\"b\": 1, \"a\": 2, \"c\": 3, \"d\": 4}", NL, "m.nope">>),
+   Cat(<<"m := {\"b\": 1, \"a\": 2, \"c\": 3, \"d\": 4}", NL, "m + 1">>),
+   Cat(<<"m := {\"b\": 1, \"a\": 2, \"c\": 3, \"d\": 4}", NL, "error(string(m))">>),
+   Cat(<<"s := {4, 3, 2, 1, 10, 20}", NL, "s + 1">>),
+   Cat(<<"s := {4, 3, 2, 1, 10, 20}", NL, "error(string(s))">>),
+   Cat(<<"s := {\"d\", \"b\", \"a\", \"c\"}", NL, "s.nope()">>),
+   Cat(<<"m := {\"b\": 1, \"a\": 2, \"c\": 3}", NL, "for k, v := range m {", NL, "error(k)", NL, "}">>),
+   Cat(<<"s := {3, 1, 2}", NL, "for x := range s {", NL, "error(string(x))", NL, "}">>),
+   Cat(<<"m := {\"b\": [], \"a\": nil, \"c\": 3}", NL, "for k, v := range m {", NL, "v.append(1)", NL, "}">>),
+   "import math\nmath.nope",
+   "import strings\nstrings.nope(1)",
+   "from math import nope1, nope2, nope3",
+   Cat(<<"func f(a, b, c) {", NL, "return a", NL, "}", NL, "f(u1, u2)">>),
+   Cat(<<"func f(a, b, c) {", NL, "return a", NL, "}", NL, "f(1)">>),
+   "keys({\"b\": 1, \"a\": 2}).nope",
+   "[{\"b\": 1, \"a\": 2, \"c\": 3}][0][5]",
+   "sorted({\"b\": 1, \"a\": 2, \"c\": 3}, 1, 2)",
+   "try(func() { error({\"b\": 1, \"a\": 2, \"c\": 3}) })",
+   "1 + {\"b\": 1, \"a\": 2, \"c\": 3}",
+   "{\"b\": 1, \"a\": 2, \"c\": 3}[{\"y\": 1, \"x\": 2}]"
+ }
+
 \* ---------------------------------------------------------------- scale
 Sizes == {1, 2, 3, 9, 10, 11, 12, 16, 17, 33, 64, 99, 100, 101, 128, 129, 255, 256, 257, 300}
 DepthSizes == {1, 2, 3, 5, 8, 10, 11, 12, 16}
